@@ -48,6 +48,13 @@ pub struct Plan {
     /// `Pending` in between, so a write future that loses its progress shows on the wire
     #[serde(default)]
     pub raw_stream_window: u64,
+    /// 0: the run ends with the session open. Otherwise the raw peer ends the session at the
+    /// end - 1: close capsule with `end_code`, 2: clean FIN of the CONNECT stream - and the
+    /// code of the endpoint's CONNECTION_CLOSE is checked (H3_NO_ERROR, whatever the session code)
+    #[serde(default)]
+    pub end_style: u8,
+    #[serde(default)]
+    pub end_code: u32,
 }
 
 pub fn gen_plan(seed: u64, index: usize, tier: Tier) -> Plan {
@@ -81,7 +88,26 @@ pub fn gen_plan(seed: u64, index: usize, tier: Tier) -> Plan {
         .collect();
     let decision = if server_under_test && rng.chance_pm(300) { base.decision.clone() } else { c02::Decision::Accept };
     let raw_stream_window = if rng.chance_pm(350) { *rng.pick(&[1u64, 3, 8, 16, 24, 32, 48, 100, 700]) } else { 0 };
-    Plan { seed, rt: RtKnobs::from_rng(&mut rng), net, server_under_test, path: if base.path.is_empty() { "/".into() } else { base.path }, query: base.query, headers: base.headers, decision, burn, ops, raw_stream_window }
+    Plan { seed, rt: RtKnobs::from_rng(&mut rng), net, server_under_test, path: if base.path.is_empty() { "/".into() } else { base.path }, query: base.query, headers: base.headers, decision, burn, ops, raw_stream_window, end_style: if rng.chance_pm(400) { rng.range(1, 2) as u8 } else { 0 }, end_code: *rng.pick(&[0u32, 1, 0x100, 0x10a, 0x10c, 0x1234_5678, u32::MAX]) }
+}
+
+/// The raw peer ends the session (capsule or FIN) and reports how the endpoint closed QUIC.
+async fn end_session(style: u8, code: u32, rs: &mut quinn::SendStream, conn: &quinn::Connection) -> Option<String> {
+    match style {
+        0 => return None,
+        1 => {
+            let _ = rp::write_all(rs, &rc::frame(rc::FRAME_DATA, &rc::close_capsule(code, b"end of c16"))).await;
+            let _ = rs.finish();
+        }
+        _ => {
+            let _ = rs.finish();
+        }
+    }
+    match tokio::time::timeout(Duration::from_secs(15), conn.closed()).await {
+        Ok(quinn::ConnectionError::ApplicationClosed(a)) => Some(format!("application:{:#x}", a.error_code.into_inner())),
+        Ok(other) => Some(format!("{other:?}")),
+        Err(_) => Some("still open after 15 s".into()),
+    }
 }
 
 struct Wire {
@@ -91,6 +117,8 @@ struct Wire {
     session_id: u64,
     expected_payloads: Vec<(AppOp, Vec<u8>)>,
     established: bool,
+    /// how the endpoint closed the transport after the raw peer ended the session (if it did)
+    close_after_end: Option<String>,
 }
 
 fn check_field_section(fs: &rc::FieldSection, what: &str) -> Result<(), (String, String)> {
@@ -120,6 +148,16 @@ fn check_field_section(fs: &rc::FieldSection, what: &str) -> Result<(), (String,
 
 fn check_wire(plan: &Plan, w: &Wire) -> Result<(), (String, String)> {
     let bad = |c: &str, d: String| Err((c.to_string(), d));
+    // ---- error codes on the wire are registered values: a session ended by the peer's capsule
+    // or FIN is answered with H3_NO_ERROR, never with the session's own 32-bit code
+    if let Some(c) = &w.close_after_end {
+        if *c != format!("application:{:#x}", rc::H3_NO_ERROR) {
+            return bad(
+                "C16/close-code-value",
+                format!("after the peer ended the session ({}) the endpoint closed the transport with {c}, expected H3_NO_ERROR (0x100)", if plan.end_style == 1 { format!("close capsule, session code {:#x}", plan.end_code) } else { "clean FIN".into() }),
+            );
+        }
+    }
     // ---- unidirectional streams: exactly one control stream, the rest WebTransport --------
     let mut controls = 0;
     let mut wt_uni: Vec<Vec<u8>> = Vec::new();
@@ -426,8 +464,9 @@ pub fn execute(plan: &Plan, trace: bool) -> Exec {
             tokio::time::sleep(Duration::from_millis(200)).await;
             let recs = std::mem::take(&mut *rec.0.lock().unwrap());
             let established = sconn.is_some();
+            let close_after_end = if established { end_session(plan.end_style, plan.end_code, &mut rs, &conn).await } else { None };
             drop(rep);
-            Ok::<_, String>(Wire { rec: recs, connect_bytes, session_id, expected_payloads: done, established })
+            Ok::<_, String>(Wire { rec: recs, connect_bytes, session_id, expected_payloads: done, established, close_after_end })
         } else {
             let (rep, _rs) = rp::raw_server_endpoint(&net, rp::RAW_SERVER_ADDR.parse().unwrap(), raw_transport(), r.seed32());
             let c = sut::sut_client(&net, &k, &mut r);
@@ -479,8 +518,9 @@ pub fn execute(plan: &Plan, trace: bool) -> Exec {
             let (done, _cconn, _cep) = client.await.map_err(|e| format!("{e:?}"))??;
             tokio::time::sleep(Duration::from_millis(200)).await;
             let recs = std::mem::take(&mut *rec.0.lock().unwrap());
+            let close_after_end = end_session(plan.end_style, plan.end_code, &mut rs, &conn).await;
             drop(rep);
-            Ok::<_, String>(Wire { rec: recs, connect_bytes, session_id, expected_payloads: done, established: true })
+            Ok::<_, String>(Wire { rec: recs, connect_bytes, session_id, expected_payloads: done, established: true, close_after_end })
         }
     });
     sut::finish_exec(&mut ex, &netslot, trace);
@@ -544,7 +584,7 @@ pub fn def() -> PropertyDef {
     PropertyDef {
         id: "C16",
         scenarios: vec![Box::new(Typed(C16Raw))],
-        rule: "Each run: the endpoint under test (server on even indexes, client on odd) talks to the scripted raw peer, which records every unidirectional stream, every bidirectional stream the endpoint opens, its half of the CONNECT stream and every datagram, and decodes them with the independent reference codec. Client under test: URL path / query / 0-8 additional headers from C02's generator. Server under test: every response variant (accept, accept_with_headers, 403, 404, 429) and session ids needing 1-, 2- (quick) and 4-byte (thorough) varints, obtained by burning stream ids. The application opens 0-6 uni / bidi streams with payloads of 0..1100 B and sends datagrams. Oracle: exactly one control stream, never closed, whose first frame is one SETTINGS (shortest-form varints, no reserved or duplicated ids, ENABLE_CONNECT_PROTOCOL = H3_DATAGRAM = ENABLE_WEBTRANSPORT = 1, QPACK table capacity and blocked streams 0) followed by nothing but GREASE; every other uni stream is 0x54 + the session id in shortest form + exactly the payload; every application bidi stream is 0x41 + session id + payload; every datagram is the shortest-form quarter stream id + payload; the CONNECT field section has Required Insert Count 0 / Base 0, only static or literal representations, valid Huffman, pseudo-headers first and lower-case names, and equals exactly the expected request (five pseudo-headers + additional fields) or response (:status of the decision + extras). Error codes on the wire are compared with registry constants under C12. Every run is non-trivial; distinct = distinct plan hashes.",
+        rule: "Each run: the endpoint under test (server on even indexes, client on odd) talks to the scripted raw peer, which records every unidirectional stream, every bidirectional stream the endpoint opens, its half of the CONNECT stream and every datagram, and decodes them with the independent reference codec. Client under test: URL path / query / 0-8 additional headers from C02's generator. Server under test: every response variant (accept, accept_with_headers, 403, 404, 429) and session ids needing 1-, 2- (quick) and 4-byte (thorough) varints, obtained by burning stream ids. The application opens 0-6 uni / bidi streams with payloads of 0..1100 B and sends datagrams. Oracle: exactly one control stream, never closed, whose first frame is one SETTINGS (shortest-form varints, no reserved or duplicated ids, ENABLE_CONNECT_PROTOCOL = H3_DATAGRAM = ENABLE_WEBTRANSPORT = 1, QPACK table capacity and blocked streams 0) followed by nothing but GREASE; every other uni stream is 0x54 + the session id in shortest form + exactly the payload; every application bidi stream is 0x41 + session id + payload; every datagram is the shortest-form quarter stream id + payload; the CONNECT field section has Required Insert Count 0 / Base 0, only static or literal representations, valid Huffman, pseudo-headers first and lower-case names, and equals exactly the expected request (five pseudo-headers + additional fields) or response (:status of the decision + extras). Error codes on the wire are compared with registry constants under C12; here, in 40% of the runs the raw peer finally ends the session (close capsule with session codes such as 0x10a or 0xffffffff, or clean FIN) and the endpoint's CONNECTION_CLOSE must carry H3_NO_ERROR. Every run is non-trivial; distinct = distinct plan hashes.",
         assumptions: vec![
             "the reference codec is validated against RFC 9000 / 7541 / 9204 worked examples at start-up; its Huffman code table (public data of RFC 7541 Appendix B) was extracted from the httlib-huffman crate's data file and checked to be a complete prefix code",
             "8-byte session ids are out of reach in situ; current-thread runtime; fault-free network",
